@@ -1082,9 +1082,9 @@ class Ctx:
                         name = "~h%d_%d" % (sid, j)
                         self.pool[name] = Entry(o, None, None, False, {"k": "result", "of": step["fn"]}, sid)
                         self.stats["result_operators_held"] += 1
-                    anon = [k for k in self.pool if k.startswith("~h")]
-                    for k in anon[:-6]:
-                        del self.pool[k]
+                    anon = [nm for nm in self.pool if nm.startswith("~h")]
+                    for nm in anon[:-6]:
+                        del self.pool[nm]
         self._materialise(sid, cur, f, k)
         self._last_used = cur.used
         self._last_ncb = cur.nprod_top
